@@ -1,10 +1,13 @@
 (* C17 - The alignment-comparison score is exact.
    Statements only; proofs in CmpProofs.v / CmpProofs2.v.
-   The counters are proved at full generality; the final "100.0 * a / b" (binary64, stored into a
-   float) is part of the executable model (Flocq) and tied bit for bit by the correspondence; that
-   a = b gives exactly 100.0f and a <= b gives a value in [0,100] follows from correct rounding and
-   is checked at run time on every case (DESIGN C17). *)
-From KV Require Import Base FP Sort Weave Cmp CmpProofs CmpProofs2.
+   The counters are proved at full generality, and so is the floating-point end: the final
+   "100.0 * a / b" (binary64 multiply and divide, stored into a float; Flocq's IEEE-754 model) gives
+   exactly 100.0f when a = b and a finite float in [0, 100] whenever a <= b, for all counter values
+   below 2^46 (they are C ints).  The model of that expression is also tied bit for bit to
+   kalign_msa_compare by the correspondence. *)
+From KV Require Import Base FP Sort Weave Cmp CmpProofs CmpProofs2 CmpFloatProofs.
+From Coq Require Import Reals.
+From Flocq Require Import Core IEEE754.Binary.
 From Coq Require Import Permutation.
 Local Open Scope Z_scope.
 
@@ -34,6 +37,7 @@ Theorem C17_allgap_columns_invisible : forall x y ng p,
   length x = length y -> length ng = S (length x) ->
   codes1 (expand ng x) (expand ng y) p = codes1 x y p.
 Proof. exact codes1_expand. Qed.
+Print Assumptions C17_allgap_columns_invisible.
 
 (* same alignment up to row order and all-gap columns: every reference relation is reproduced,
    i.e. a = b and the score is 100 * a / a *)
@@ -44,6 +48,33 @@ Theorem C17_same_alignment_reproduces_everything : forall ng1 ng2 w,
   ident_total (compare_counters R T) = ref_total (compare_counters R T).
 Proof. intros ng1 ng2 w H1 H2 R T0 T HR HT Hrel Hp. exact (same_alignment_all_relations_reproduced ng1 ng2 w H1 H2 R T0 HR HT T Hrel Hp). Qed.
 Print Assumptions C17_same_alignment_reproduces_everything.
+
+(* the floating-point end, for all counter values: a = b > 0 gives exactly 100.0f = 0x42c80000 ... *)
+Theorem C17_equal_counters_give_exactly_100 : forall c,
+  ident_total c = ref_total c -> (0 < ref_total c < 2 ^ 46)%N -> score_of c = 1120403456%N.
+Proof. exact score_equal_is_100. Qed.
+Print Assumptions C17_equal_counters_give_exactly_100.
+
+(* ... hence: the same alignment up to row order and all-gap columns scores exactly 100 *)
+Theorem C17_same_alignment_scores_100 : forall ng1 ng2 w,
+  length ng1 = S w -> length ng2 = S w ->
+  forall R T0 T, names_distinct R -> names_distinct T0 ->
+  Forall2 (same_row ng1 ng2 w) R T0 -> Permutation T0 T ->
+  (0 < ref_total (compare_counters R T) < 2 ^ 46)%N ->
+  score_of (compare_counters R T) = 1120403456%N.
+Proof.
+  intros ng1 ng2 w H1 H2 R T0 T HR HT Hrel Hp Hb. apply score_equal_is_100; [|exact Hb].
+  exact (same_alignment_all_relations_reproduced ng1 ng2 w H1 H2 R T0 HR HT T Hrel Hp).
+Qed.
+Print Assumptions C17_same_alignment_scores_100.
+
+(* ... and every score is a finite float between 0 and 100 (the counters always satisfy a <= b) *)
+Theorem C17_score_between_0_and_100 : forall r t,
+  (0 < ref_total (compare_counters r t) < 2 ^ 46)%N ->
+  exists x : f32, score_of (compare_counters r t) = bits_of_f32 x /\ is_finite 24 128 x = true /\
+                  (0 <= B2R 24 128 x <= 100)%R.
+Proof. intros r t Hb. apply score_in_range; [apply counters_range|exact Hb]. Qed.
+Print Assumptions C17_score_between_0_and_100.
 
 (* Non-vacuity and the float end of the computation on a concrete pair: score 100.0f = 0x42c80000 *)
 Example C17_nonvacuous :
